@@ -1,0 +1,19 @@
+//go:build verif
+
+package polling
+
+import (
+	"time"
+
+	"github.com/karagenc/socket.io-go/engine.io/parser"
+)
+
+// VerifPollQueue wraps the unexported poll queue for the runtime-verification harness.
+type VerifPollQueue struct{ pq *pollQueue }
+
+func VerifNewPollQueue() *VerifPollQueue { return &VerifPollQueue{pq: newPollQueue()} }
+
+func (q *VerifPollQueue) Poll(timeout time.Duration) []*parser.Packet { return q.pq.poll(timeout) }
+func (q *VerifPollQueue) Add(packets ...*parser.Packet)               { q.pq.add(packets...) }
+func (q *VerifPollQueue) Get() []*parser.Packet                       { return q.pq.get() }
+func (q *VerifPollQueue) Len() int                                    { return q.pq.len() }
